@@ -62,25 +62,28 @@ def model_runs(ctx, rnd):
     # (a) exhaustive: index cells = face cells, scenes on 1..k faces, every option combination
     if q:
         faces = sorted(rnd.sample(range(1, 7), 3))
-        ctx.tlc("EdgeQuery", model_cfg(faces, 0, 2, 3, 2, 2, 0, [1, 2, INF], [INF, 1, 0], [0, 1], [False], 2, 2, 2, []),
-                workers=10, timeout=300)
+        mrs = [1, rnd.choice([2, INF])]
+        lims = [INF, rnd.choice([1, 0])]
+        dmax, span = rnd.choice([(2, 1), (1, 2)])
+        ctx.tlc("EdgeQuery", model_cfg(faces, 0, 2, 3, 2, dmax, 0, mrs, lims, [0, 1], [False], 2, 2, span, []),
+                workers=8, timeout=300)
     else:
         ctx.tlc("EdgeQuery", model_cfg([1, 2, 3, 4], 0, 2, 4, 2, 2, 1, [1, 2, 3, INF], [INF, 1, 0], [0, 1], [False, True],
-                                       2, 2, 2, []), workers=14, timeout=1500, heap="8g")
+                                       2, 2, 2, []), workers=12, timeout=2400, heap="8g")
         # a two-level tree on one and two faces (split, children, the single-face covering rule)
         ctx.tlc("EdgeQuery", model_cfg([2, 5], 1, 2, 3, 2, 2, 0, [1, 2, INF], [INF, 1, 0], [0, 1], [False], 2, 2, 2, []),
-                workers=14, timeout=1500, heap="8g")
+                workers=12, timeout=2400, heap="8g")
     # (b) random walks over larger scenes: all six faces, two tree levels, three edges, IsDistanceLess options
     sims = [
         ([1, 2, 3, 4, 5, 6], 0, 2, 6, 3, 3, 1, [1, 2, 3, INF], [INF, 2, 0], [0, 1, INF], [False, True], 2, 2, 2),
         ([1, 3], 2, 2, 4, 3, 3, 1, [1, 2, 3, INF], [INF, 2, 0], [0, 1, INF], [False], 2, 3, 3),
         ([2], 2, 3, 4, 3, 2, 0, [1, 2, INF], [INF, 1, 0], [0, 1], [False], 3, 3, 2),
     ]
-    for i, s in enumerate(sims):
+    for i, s in enumerate(sims[:2] if q else sims):
         ctx.tlc("EdgeQuery", model_cfg(*s, []), workers=1 if q else 4,
-                simulate="num=%d" % (1500 if q else 60000), depth=60, seed=ctx.seed * 10 + i, timeout=900)
+                simulate="num=%d" % (150 if q else 40000), depth=60, seed=ctx.seed * 10 + i, timeout=1800)
     # (c) the pinned tree's behaviour, transcribed: TLC must find the counterexamples
-    for tag, s in [("break", sims[0]), ("dup", sims[0]), ("capbound", sims[1])]:
+    for tag, s in [("break", sims[0]), ("dup", sims[0]), ("capbound", sims[0])]:
         r = ctx.tlc("EdgeQuery", model_cfg(*s, [tag]), workers=1, simulate="num=200000", depth=60,
                     seed=ctx.seed * 10 + 7, timeout=600, allow_violation=True, count=False)
         inv = [m.group(1) for ln in r.lines for m in [re.match(r"Error: Invariant (\w+) is violated", ln)] if m]
@@ -105,6 +108,16 @@ def w1_scene(rnd, n, nfaces, npts, nlines, ntris, big):
     anyp = prim[:]
     rnd.shuffle(anyp)
     tg_pts = anyp[:3] + cloud[:1] + ([lines[0][0]] if lines and lines[0] else [])
+    # a target strictly inside each triangle, and one whose antipode is (furthest-edge queries)
+    det = lambda a, b, c: (a[0] * (b[1] * c[2] - b[2] * c[1]) - a[1] * (b[0] * c[2] - b[2] * c[0])
+                           + a[2] * (b[0] * c[1] - b[1] * c[0]))
+    for t in tris:
+        if len(t) == 3:
+            a, b, c = t if det(*t) > 0 else (t[0], t[2], t[1])
+            ins = [p for p in prim if det(a, b, p) > 0 and det(b, c, p) > 0 and det(c, a, p) > 0]
+            if ins:
+                p = rnd.choice(ins)
+                tg_pts += [p, tuple(-x for x in p)]
     tg_edges = [rnd.sample(prim, 2) for _ in range(2)]
     clouds = [rnd.sample(prim, 3)]
     tlines = [rnd.sample(prim, 5)]
@@ -124,7 +137,7 @@ def w1_scene(rnd, n, nfaces, npts, nlines, ntris, big):
     }
 
 
-def w2_scene(rnd, g, nfaces, rows):
+def w2_scene(rnd, g, nfaces, rows, bundle=False):
     k, k2 = 2 ** g + 1, 2 ** (g + 2)
     n = 2 ** g
     faces = rnd.sample(range(6), nfaces)
@@ -144,6 +157,13 @@ def w2_scene(rnd, g, nfaces, rows):
         f = rnd.choice(faces)
         i0 = rnd.randint(0, n - 1)
         rws.add(((f * k + i0) * k + rnd.randint(i0 + 1, n)) * k + rnd.randint(0, n))
+    if bundle:
+        # a dozen rows on one grid line, all covering its middle: index cells with >= 10 edges
+        f, j = rnd.choice(faces), rnd.randint(0, n)
+        for i0 in range(0, n // 2 - 1):
+            for i1 in range(n // 2 + 1, n + 1):
+                if len(rws) < 14:
+                    rws.add(((f * k + i0) * k + i1) * k + j)
     for _ in range(3):
         tg.add((rnd.randrange(6) * k2 + rnd.randrange(k2)) * k2 + rnd.randrange(k2))
     return {
@@ -197,9 +217,10 @@ def run(ctx):
                     workers=8 if q else 12, timeout=900)
         cases += r.tagged.get("CASE", [])
     # W2
-    for (g, nf, rows) in ([(3, 3, 1), (4, 1, 0)] if q else
-                          [(3, 1, 2), (3, 2, 1), (3, 3, 1), (4, 2, 1), (4, 4, 2), (3, 6, 2), (5, 1, 1), (4, 6, 0)]):
-        consts = w2_scene(rnd, g, nf, rows)
+    for (g, nf, rows, bundle) in ([(3, 3, 1, True), (4, 1, 0, False)] if q else
+                                  [(3, 1, 2, True), (3, 2, 1, False), (3, 3, 1, True), (4, 2, 1, False), (4, 4, 2, True),
+                                   (3, 6, 2, False), (5, 1, 1, False), (4, 6, 0, True)]):
+        consts = w2_scene(rnd, g, nf, rows, bundle)
         r = ctx.tlc("Gen_EdgeQuery", vlib.cfg(init="InitW2", next_="NextW2", constants=consts,
                                               invariants=["EmitW2", "GridLoopsSimple"]), workers=4, timeout=600)
         cases += r.tagged.get("CASE", [])
